@@ -324,3 +324,7 @@ def run(chk):
     chk.guard("R01.10", "placeholder-completion", c17.check_placeholder_completion, chk, F, "R01.10")
     chk.guard("R01.7", "psbt-locks", c14.check_locks, RuleAlias(chk, {"R14.1": "R01.7"}, "the locks a PSBT finalization "
               "relies on are the spent input's own"), F)
+    # the lock a satisfaction reports for a path is merged from its parts: reporting the earlier of two locks would make the
+    # spend fail with the reported value (table shared with C03 / C02 / C17)
+    from . import c03
+    chk.guard("R01.12", "lock-merge", c03.check_lock_merge, chk, F, "R01.12")
